@@ -5,5 +5,7 @@ CONSTANTS
   Dev_DupUserStucksObject = FALSE
   Dev_AuthFloodCrashes = FALSE
   Dev_HostileCountCrashes = FALSE
+  Dev_SaturationDeadlocks = FALSE
+  Dev_SendBlocksOnUnreadSocket = FALSE
 INVARIANTS Export ServerUp AllServe
 CHECK_DEADLOCK FALSE
